@@ -287,6 +287,58 @@ def r_cache(E):
                     f"object, so two parts of a model that each asked for their own (two usage patterns calling "
                     f"Countries.FRANCE()) share one, and editing it for one changes the other's footprints", rel,
                     r.lineno, name, {"clauses": [_tag(rel), "factory", "model"]}))
+    # a cached_property of a model class holds a value computed from attributes of the object: its cache is dropped
+    # (`self.__dict__.pop("<name>", None)` / `del self.<name>`) in the class's __setattr__, under a test on the attribute
+    # name that covers every attribute the property reads — the recomputed ones too, which an update assigns through
+    # __setattr__ while it writes replaced inputs straight into __dict__
+    for cn, ci in sorted(pm.classes.items()):
+        if not pm.is_model(cn):
+            continue
+        for f in pm.own_methods(cn):
+            decs = {norm(d).split(".")[-1] for d in f.decorator_list}
+            if "cached_property" not in decs:
+                continue
+            res.instances += 1
+            reads = sorted({x.attr for x in ast.walk(f) if isinstance(x, ast.Attribute) and isinstance(x.value, ast.Name)
+                            and x.value.id == "self" and isinstance(x.ctx, ast.Load) and x.attr != f.name})
+            owner, sa = pm.find_method(cn, "__setattr__")
+            covered = set()
+            drops = False
+            if sa is not None and owner == cn:
+                nparam = sa.args.args[1].arg if len(sa.args.args) > 1 else "name"
+                for iff in [n for n in ast.walk(sa) if isinstance(n, ast.If)]:
+                    dropping = any(
+                        (isinstance(c_, ast.Call) and isinstance(c_.func, ast.Attribute) and c_.func.attr == "pop"
+                         and norm(c_.func.value) == "self.__dict__" and c_.args and isinstance(c_.args[0], ast.Constant)
+                         and c_.args[0].value == f.name)
+                        or (isinstance(c_, ast.Delete) and any(norm(t_) == f"self.{f.name}" for t_ in c_.targets))
+                        for b_ in iff.body for c_ in ast.walk(b_))
+                    if not dropping:
+                        continue
+                    drops = True
+                    t = iff.test
+                    for c_ in [t] + [v_ for v_ in (t.values if isinstance(t, ast.BoolOp) else [])]:
+                        if isinstance(c_, ast.Compare) and len(c_.ops) == 1 and norm(c_.left) == nparam:
+                            if isinstance(c_.ops[0], ast.In) and isinstance(c_.comparators[0], (ast.Tuple, ast.List, ast.Set)):
+                                covered |= {e_.value for e_ in c_.comparators[0].elts if isinstance(e_, ast.Constant)}
+                            elif isinstance(c_.ops[0], ast.Eq) and isinstance(c_.comparators[0], ast.Constant):
+                                covered.add(c_.comparators[0].value)
+            missing = [a for a in reads if a not in covered and a != "name"]
+            rel_c = pm.path_of(cn)
+            if not drops:
+                res.findings.append(Finding(
+                    "R-CACHE", f"{cn}.{f.name} :: cached_property never dropped",
+                    f"{cn}.{f.name} is a cached_property computed from {reads} and nothing drops its cache when those change: "
+                    f"after an edit the object keeps serving the value of the previous inputs", rel_c, f.lineno,
+                    f"{cn}.{f.name}", {"clauses": [_tag(rel_c), "model"]}))
+            elif missing:
+                res.findings.append(Finding(
+                    "R-CACHE", f"{cn}.{f.name} :: cache not dropped when {missing[0]} changes",
+                    f"{cn}.{f.name} is a cached_property computed from {reads}; {cn}.__setattr__ drops its cache only when the "
+                    f"attribute assigned is one of {sorted(covered)} — not when `{missing[0]}` is: an update writes replaced "
+                    f"inputs straight into __dict__ and assigns the recomputed `{missing[0]}` afterwards, so the cached value "
+                    f"keeps describing the previous one", rel_c, f.lineno, f"{cn}.{f.name}",
+                    {"clauses": [_tag(rel_c), "model"]}))
     res.breakdown = {"cached_functions": sorted(cached), "functions_scanned": scanned}
     if scanned < 300:
         raise AnalysisError(f"R-CACHE scanned only {scanned} functions")
